@@ -277,7 +277,7 @@ impl<'a> LeafNode<'a> {
         let value_data_start = value_start + varint_size;
 
         ensure!(
-            value_data_start + value_len as usize <= PAGE_SIZE,
+            value_len <= (PAGE_SIZE - value_data_start) as u64,
             "value extends beyond page boundary"
         );
 
@@ -394,7 +394,7 @@ impl<'a> LeafNodeMut<'a> {
     }
 
     pub fn free_space(&self) -> u16 {
-        self.free_end() - self.free_start()
+        self.free_end().saturating_sub(self.free_start())
     }
 
     fn frag_bytes(&self) -> u8 {
@@ -443,7 +443,7 @@ impl<'a> LeafNodeMut<'a> {
         let value_data_start = value_start + varint_size;
 
         ensure!(
-            value_data_start + value_len as usize <= PAGE_SIZE,
+            value_len <= (PAGE_SIZE - value_data_start) as u64,
             "value extends beyond page boundary"
         );
 
